@@ -192,6 +192,9 @@ class QuicSession:
 
     def decrypt_packet(self, quic_packet: type[QuicPacket]):
         decryptor: QuicDecryptor
+        # packet-number and key-phase state only advance for packets that are processed successfully (RFC 9000 A.3, RFC 9001 6.3)
+        saved_state = (dict(self.packet_number_server), dict(self.packet_number_client), self.epoch_server, self.epoch_client,
+                       self.last_key_phase_server, self.last_key_phase_client)
         if isinstance(quic_packet, ShortQuicPacket):
             quic_packet = cast(ShortQuicPacket, quic_packet)
             if quic_packet.packet_type == QuicPacketType.RTT_1:
@@ -235,6 +238,8 @@ class QuicSession:
         except Exception as e:
             print(e)
             logging.warning(f"Could not decrypt Quic Packet: {quic_packet.dcid}")
+            (self.packet_number_server, self.packet_number_client, self.epoch_server, self.epoch_client,
+             self.last_key_phase_server, self.last_key_phase_client) = saved_state
 
     def packet_isserver(self, packet, dcid):
         # on the path the session was first seen on, the sender is known by its address;
